@@ -2,7 +2,8 @@
 //
 // Explicit-state breadth-first search over histories of
 //
-//	{CreateSubscription, DeleteSubscriptions(t), CreateMonitoredItems(t),
+//	{CreateSubscription, DeleteSubscriptions(t), CreateMonitoredItems(t) with one
+//	 item, CreateMonitoredItems(t) with two items in one request,
 //	 DeleteMonitoredItems(t), SetMonitoringMode(t)} x 2 sessions,
 //	 t in {own-oldest, own-newest, foreign(oldest), unknown}
 //
@@ -70,7 +71,7 @@ import (
 
 type c32Op struct {
 	S int    `json:"s"` // session 0/1
-	K string `json:"k"` // CS DS CMI DMI SMM
+	K string `json:"k"` // CS DS CMI CMI2 (two items in one request) DMI SMM
 	T string `json:"t"` // "", own-oldest, own-newest, foreign, unknown
 }
 
@@ -91,9 +92,9 @@ func (h c32Hist) String() string {
 	return strings.Join(p, " ")
 }
 
-var c32Kinds = []string{"CS", "DS", "CMI", "DMI", "SMM"}
+var c32Kinds = []string{"CS", "DS", "CMI", "CMI2", "DMI", "SMM"}
 var c32Targets = []string{"own-oldest", "own-newest", "foreign", "unknown"}
-var c32Service = map[string]string{"CS": "CreateSubscription", "DS": "DeleteSubscriptions", "CMI": "CreateMonitoredItems", "DMI": "DeleteMonitoredItems", "SMM": "SetMonitoringMode"}
+var c32Service = map[string]string{"CS": "CreateSubscription", "DS": "DeleteSubscriptions", "CMI": "CreateMonitoredItems", "CMI2": "CreateMonitoredItems[2 items]", "DMI": "DeleteMonitoredItems", "SMM": "SetMonitoringMode"}
 
 const c32Unknown = uint32(999999)
 
@@ -308,7 +309,7 @@ func c32Resolve(o c32Op, sn c32Snap) (id uint32, subOf uint32, ok bool) {
 	}
 	var own, foreign []uint32
 	subOfItem := map[uint32]uint32{}
-	if o.K == "DS" || o.K == "CMI" {
+	if o.K == "DS" || o.K == "CMI" || o.K == "CMI2" {
 		for id, ow := range sn.Subs {
 			if ow == o.S {
 				own = append(own, id)
@@ -374,12 +375,20 @@ func c32Request(o c32Op, id, subOf uint32) ua.Request {
 		return &ua.CreateSubscriptionRequest{RequestedPublishingInterval: 3600000, RequestedLifetimeCount: 10000, RequestedMaxKeepAliveCount: 1000, PublishingEnabled: true}
 	case "DS":
 		return &ua.DeleteSubscriptionsRequest{SubscriptionIDs: []uint32{id}}
-	case "CMI":
-		return &ua.CreateMonitoredItemsRequest{SubscriptionID: id, TimestampsToReturn: ua.TimestampsToReturnBoth, ItemsToCreate: []*ua.MonitoredItemCreateRequest{{
-			ItemToMonitor:       &ua.ReadValueID{NodeID: ua.NewNumericNodeID(0, 2258), AttributeID: ua.AttributeIDValue, DataEncoding: &ua.QualifiedName{}},
-			MonitoringMode:      ua.MonitoringModeReporting,
-			RequestedParameters: &ua.MonitoringParameters{ClientHandle: 1, SamplingInterval: 1000, QueueSize: 1, Filter: ua.NewExtensionObject(nil)},
-		}}}
+	case "CMI", "CMI2":
+		n := 1
+		if o.K == "CMI2" {
+			n = 2
+		}
+		req := &ua.CreateMonitoredItemsRequest{SubscriptionID: id, TimestampsToReturn: ua.TimestampsToReturnBoth}
+		for i := 0; i < n; i++ {
+			req.ItemsToCreate = append(req.ItemsToCreate, &ua.MonitoredItemCreateRequest{
+				ItemToMonitor:       &ua.ReadValueID{NodeID: ua.NewNumericNodeID(0, 2258), AttributeID: ua.AttributeIDValue, DataEncoding: &ua.QualifiedName{}},
+				MonitoringMode:      ua.MonitoringModeReporting,
+				RequestedParameters: &ua.MonitoringParameters{ClientHandle: uint32(i + 1), SamplingInterval: 1000, QueueSize: 1, Filter: ua.NewExtensionObject(nil)},
+			})
+		}
+		return req
 	case "DMI":
 		return &ua.DeleteMonitoredItemsRequest{SubscriptionID: subOf, MonitoredItemIDs: []uint32{id}}
 	case "SMM":
@@ -571,12 +580,18 @@ func c32Judge(o c32Op, id uint32, pre, post c32Snap, res c32Res) (out [][2]strin
 				add("returned-id-still-live-in-"+who, fmt.Sprintf("returned subscription id %d; live before: %s", res.IDs[0], pre.raw()))
 			}
 		}
-	case "CMI":
+	case "CMI", "CMI2":
+		// uniqueness is judged over all ids returned Good: against what was live before, and among themselves
+		seen := map[uint32]bool{}
 		for i, st := range res.Results {
 			if st == "Good" && i < len(res.IDs) {
 				if _, live := pre.Items[res.IDs[i]]; live {
 					add("returned-item-id-still-live", fmt.Sprintf("returned monitored item id %d; live before: %s", res.IDs[i], pre.raw()))
 				}
+				if seen[res.IDs[i]] {
+					add("returned-item-id-twice-in-one-response", fmt.Sprintf("returned monitored item ids %v", res.IDs))
+				}
+				seen[res.IDs[i]] = true
 			}
 		}
 	}
@@ -725,7 +740,7 @@ func c32() {
 	r.Set("complete_to_depth", completeDepth)
 	r.Set("unexpanded_states_at_bound", len(frontier))
 	r.Set("worker_processes_started", p.Started)
-	r.Rule(fmt.Sprintf("breadth-first over histories of length <= %d of {CreateSubscription, DeleteSubscriptions, CreateMonitoredItems, DeleteMonitoredItems, SetMonitoringMode} x targets {own-oldest, own-newest, foreign, unknown} x 2 sessions; states deduplicated by canonical state (live subscription ids per session + rank-renamed monitored items with subscription, owner and mode); every transition = replay of the state's representative history on a reset real server + one operation, executed directly (handler call) and over the wire; evaluations = executed transitions (direct and wire counted separately); non-trivial = a transition from a state with at least one live subscription; distinct = (canonical source state, operation)", depth))
+	r.Rule(fmt.Sprintf("breadth-first over histories of length <= %d of {CreateSubscription, DeleteSubscriptions, CreateMonitoredItems with 1 item, CreateMonitoredItems with 2 items in one request, DeleteMonitoredItems, SetMonitoringMode} x targets {own-oldest, own-newest, foreign, unknown} x 2 sessions; states deduplicated by canonical state (live subscription ids per session + rank-renamed monitored items with subscription, owner and mode); every transition = replay of the state's representative history on a reset real server + one operation, executed directly (handler call) and over the wire; evaluations = executed transitions (direct and wire counted separately); non-trivial = a transition from a state with at least one live subscription; distinct = (canonical source state, operation)", depth))
 	r.Assume("the ticker of every subscription is set to one hour so that no subscription expires during the check", "reset server == new server for these services (argued in c32.go, and tested for every state of depth <= 2)", "effects of a step are collected at a quiescence barrier (all server goroutines parked), not after a delay")
 	r.Finish()
 }
